@@ -651,3 +651,53 @@ func VerifC08Merge3x2() { c08Merge(3, 2, false) }
 
 // thorough tier: four copies of one stream
 func VerifC08Copy4() { c08Copy(4, 2, 5, false) }
+
+// n live sources (2..6: every arm of the static select and the reflective one): one of them ends first, at any
+// position; afterwards every other source still delivers its item - ending one source never drops another
+func c08MergeCloseOne(n int) {
+	var srs []*StreamReader[int]
+	var sws []*StreamWriter[int]
+	for i := 0; i < n; i++ {
+		sr, sw := Pipe[int](2)
+		srs = append(srs, sr)
+		sws = append(sws, sw)
+	}
+	closer := vchoose("closer", n)
+	holder := (closer + n - 1) % n
+	first := c08Val()
+	sws[holder].Send(first, nil)
+	sws[closer].Close()
+	m := MergeStreamReaders(srs)
+	v, err := m.Recv()
+	vassert(err == nil && v == first, "the item of a live source is delivered although another source has ended")
+	// now every live source sends one more item and ends
+	want := map[int]int{}
+	for i := 0; i < n; i++ {
+		if i != closer {
+			x := c08Val()
+			want[i] = x
+			sws[i].Send(x, nil)
+			sws[i].Close()
+		}
+	}
+	seen := map[int]bool{}
+	for k := 0; k < n-1; k++ {
+		v, err := m.Recv()
+		vassert(err == nil, "every live source's item is delivered after another source has ended")
+		for i, x := range want {
+			if v == x && !seen[i] {
+				seen[i] = true
+				break
+			}
+		}
+	}
+	vassert(len(seen) == n-1, "each live source delivers its item exactly once")
+	_, err = m.Recv()
+	vassert(err == io.EOF, "the merged stream ends after every source has ended")
+}
+
+func VerifC08MergeCloseOne2() { c08MergeCloseOne(2) }
+func VerifC08MergeCloseOne3() { c08MergeCloseOne(3) }
+func VerifC08MergeCloseOne4() { c08MergeCloseOne(4) }
+func VerifC08MergeCloseOne5() { c08MergeCloseOne(5) }
+func VerifC08MergeCloseOne6() { vcfg("selectfirst", 1); c08MergeCloseOne(6) }
